@@ -85,8 +85,17 @@ def _list_plot_item_labels(cp):
   outlist = [k for (k,v) in items]
   return outlist  
 
+def _split_item_label(label):
+  """Split SECTION_NAME:KEY into (SECTION_NAME, KEY). The names of table-form sections (Table-Form:NAME)
+  contain a colon themselves, so for those the section name ends at the second colon."""
+  section, key = label.split(":", 1)
+  if section.strip() == "Table-Form" and ":" in key.split("=", 1)[0]:
+    name, key = key.split(":", 1)
+    section = section + ":" + name
+  return section, key
+
 def _item_value(cp, key):
-  section, section_key = key.split(":",1)
+  section, section_key = _split_item_label(key)
   v = cp.raw_config_parser[section][section_key]
   return v 
 
